@@ -304,7 +304,14 @@ func runShareCase(c *Case) string {
 	}
 	src := &upSource{pre: pres}
 	flags := c.get("flags", "-")
-	shared := buildShared(c.get("api", "config"), c.get("conn", "publish"), flags, src.Observable())
+	source := src.Observable()
+	// src=just:1,2  the library's own synchronous source ro.Just(1, 2) instead of the probe (no
+	// counters: `up=-`); the model side plays the prefix N1,N2,C on every upstream subscription
+	justSrc := strings.HasPrefix(c.get("src", "probe"), "just:")
+	if justSrc {
+		source = ro.Just(parseInts(strings.TrimPrefix(c.get("src", ""), "just:"))...)
+	}
+	shared := buildShared(c.get("api", "config"), c.get("conn", "publish"), flags, source)
 	if shared == nil {
 		return "res " + c.id + " unsupported"
 	}
@@ -343,6 +350,9 @@ func runShareCase(c *Case) string {
 	tr := "-"
 	if len(traces) > 0 {
 		tr = strings.Join(traces, "|")
+	}
+	if justSrc {
+		up = nil
 	}
 	return fmt.Sprintf("res %s traces=%s up=%s drops=%s unhandled=%s escaped=%s", c.id, tr, joinOrDash(up),
 		renderHookList(rec.drops), renderHookList(rec.unhandled), joinOrDash(escaped))
@@ -514,6 +524,15 @@ func genShare(tier string, seed int64, only string) []*Case {
 	for _, c := range shareCorpus {
 		pe := strings.SplitN(c[3], "|", 2)
 		add(c[0], c[1], c[2], pe[0], pe[1])
+	}
+	// the library's own ro.Just as the source
+	for _, j := range []string{"just:1,2", "just:", "just:5"} {
+		for _, fl := range shareFlagSets {
+			for _, conn := range []string{"publish", "replay1", "behavior"} {
+				id++
+				cases = append(cases, newCase(id, "kind", "share", "api", "config", "conn", conn, "flags", fl, "src", j, "ev", "S,S,U0,S", "fix", fix))
+			}
+		}
 	}
 	hotLen, coldLen, nrand, randLen := 5, 4, 300, 12
 	conns := shareConns
